@@ -491,6 +491,7 @@ def run_real(template, scripts, chooser_factory, check_launch=True, cont=(), rea
         res.stop = bool(sim.controller.stop_executing)
         res.n_sched = sim.n_sched
         res.pool_errors = list(sim.pool_errors)
+        res.exit_log = {r: [list(x) for x in v] for r, v in sim.exit_log.items()}
         res.finish_log = list(sim.finish_log)
         res.first_final = [sim.first_final.get(r) for r in sim.refs]
         return res
@@ -512,6 +513,26 @@ def model_request(info, scripts, ops):
     ops = [["tick", 0] if o[0] == "skip" else o for o in ops]
     return {"comps": comps, "order": info["order"], "lastStage": info["lastStage"],
             "cont": list(info.get("cont", [])), "ops": ops}
+
+
+def launch_of(entry):
+    """script entry -> what the task generator did at that launch, in the vocabulary of St4sd.Ctrl.Launch"""
+    base, _, how = entry.partition(":")
+    if how in ("os", "launch"):
+        return "submitError"
+    if how == "raise":
+        return "otherError"
+    return "task:" + base
+
+
+def engine_request(info, exit_log):
+    """(launches per component for the model, reasons the real engines reported)"""
+    launches, reported = [], []
+    for c in info["comps"]:
+        log = exit_log.get(c["ref"], [])
+        launches.append([launch_of(e) for e, _r in log])
+        reported.append([r for _e, r in log])
+    return launches, reported
 
 
 def first_mismatch(model_snaps, real_snaps):
